@@ -12,6 +12,7 @@ import re
 
 from ..absdom import FLAGS, parse_regex
 from ..consts import fold_str
+from ..interp import FuncRef, Interp, PyRaise
 from ..model import AnalysisError, mangle, norm_text
 from . import builders as B
 from . import quant
@@ -114,7 +115,7 @@ def run(ctx, model):
                 st = model.parents.get(st)
             if isinstance(st, ast.Assign) and isinstance(st.targets[0], ast.Tuple) and len(st.targets[0].elts) == 2 \
                     and st.targets[0].elts[1] is node and isinstance(st.value, ast.Call) \
-                    and ast.unparse(st.value.func).endswith("__infer_type"):
+                    and ast.unparse(st.value.func).endswith(model.method(PRE, "Pregex", "__infer_type").node.name):
                 ok = True
         if not ok:
             ctx.violation("R-FLAGSRC", fn.relpath, fn.short, norm_text(model.parents.get(node)),
@@ -123,8 +124,16 @@ def run(ctx, model):
     if not any(fn.node is init.node for fn, _ in writes):
         ctx.violation("R-FLAGSRC", init.relpath, init.short, "<missing store>",
                       "Pregex.__init__ no longer stores the repeatable flag from __infer_type", init.node.lineno)
-    f_inf, rets = infer_returns(model)
-    ctx.floor("R-FLAGSRC", len(rets), 8, "return statements of __infer_type")
+    try:
+        f_inf, rets = infer_returns(model)
+    except AnalysisError as e:
+        # the classifier is spelled differently (tables, computed flags, helper functions): the syntactic return-shape
+        # rule does not apply; the semantic rules below (R-RECOG, R-REPEAT-LIT: classifier interpreted) still decide
+        f_inf, rets = model.method(PRE, "Pregex", "__infer_type"), []
+        ctx.note(f"R-FLAGSRC return-shape rule not applicable to this spelling of the classifier ({str(e)[:90]}); "
+                 "the flag's meaning is decided by the interpreted classifier (R-RECOG, R-REPEAT-LIT)")
+    if rets:
+        ctx.floor("R-FLAGSRC", len(rets), 3, "return statements of __infer_type")
     nonrep_const = rep_const = None
     for tname, flag, guard, st in rets:
         ctx.instance("R-FLAGSRC", key=("return", tname, flag, guard and guard[0]),
@@ -138,16 +147,26 @@ def run(ctx, model):
                 nonrep_const = guard
         elif tname == "Assertion" and guard is not None and guard[1] == "pattern" and "?<!" in guard[0]:
             rep_const = guard
-    if nonrep_const is None:
+    if rets and nonrep_const is None:
         ctx.violation("R-FLAGSRC", f_inf.relpath, f_inf.short, "<no (Assertion, False) return>",
                       "__infer_type has no return marking anchored / positive look-around patterns non-repeatable",
                       f_inf.node.lineno)
         return
-    if rep_const is None:
-        raise AnalysisError("anchor vanished: the repeatable-assertion recogniser of __infer_type")
 
-    # ---------------- R-RECOG
-    for nm, (const, _, _) in (("non-repeatable", nonrep_const), ("repeatable", rep_const)):
+    # ---------------- R-RECOG (the classifier itself is interpreted on every emitted template)
+    from ..interp import Hooks as _PlainHooks
+    _cls_cache = {}
+
+    def classify(text):
+        if text not in _cls_cache:
+            it = Interp(model, _PlainHooks(), fuel=400000)
+            try:
+                t, flag = it.call(FuncRef(f_inf), [text])
+                _cls_cache[text] = (getattr(t, "name", str(t)), flag)
+            except PyRaise as e:
+                _cls_cache[text] = ("!" + e.name, None)
+        return _cls_cache[text]
+    for nm, (const, _, _) in [(a_, b_) for a_, b_ in (("non-repeatable", nonrep_const), ("repeatable", rep_const)) if b_ is not None]:
         tree = parse_regex(const)[0]
         alts = tree[0][1][1] if (len(tree) == 1 and tree[0][0] == "BRANCH") else (tree,)
         for alt in alts:
@@ -165,13 +184,14 @@ def run(ctx, model):
     def check(f, meth, text, want_nonrep, inp):
         nonlocal n_rec
         n_rec += 1
-        m_non = re.fullmatch(nonrep_const[0], text, FLAGS) is not None
-        m_rep = re.fullmatch(rep_const[0], text, FLAGS) is not None
+        tname, flag = classify(text)
+        m_non = flag is False
+        m_rep = tname == "Assertion" and flag is True
         ctx.instance("R-RECOG", key=(meth, inp), sample=f"{meth} {inp}: {text!r} nonrep-recogniser={m_non} rep-recogniser={m_rep}")
         if want_nonrep and not m_non:
             ctx.violation("R-RECOG", f.relpath, f.short, "<emitted template>",
                           f"{meth}: emitted template is not recognised as non-repeatable by __infer_type's recogniser",
-                          f.node.lineno, inp=inp, detail=f"{text!r} !~ {nonrep_const[0]!r}")
+                          f.node.lineno, inp=inp, detail=f"{text!r} is classified {tname}, repeatable={flag}")
         if not want_nonrep and (m_non or not m_rep):
             ctx.violation("R-RECOG", f.relpath, f.short, "<emitted template>",
                           f"{meth}: a negative look-around / boundary template is "
@@ -194,7 +214,7 @@ def run(ctx, model):
                 outs, f = B.call_method_ident(model, meth, r, [a])
                 for o in outs:
                     if o.text is not None:
-                        if meth in B.NEGATIVE and re.fullmatch(nonrep_const[0], r[2], FLAGS):
+                        if meth in B.NEGATIVE and classify(r[2])[1] is False:
                             continue
                         check(f, meth, o.text, meth in B.POSITIVE, f"recv={r[0]} arg={a[0]}")
     ctx.floor("R-RECOG", n_rec, 300, "emitter x operand templates")
